@@ -99,8 +99,7 @@ def tlc_cases(cfg, module='MC_LoadRef', timeout=7200, extra_files=(),
         import glob
         for old in glob.glob(os.path.join(
                 cdir, os.path.splitext(cfg)[0] + '-*.json')):
-            if old != path and os.path.getmtime(old) < \
-                    os.path.getmtime(path) - 3600:
+            if old != path:
                 try:
                     os.remove(old)
                     os.remove(old + '.lock')
@@ -546,7 +545,7 @@ def select(V, pid, cases, rnd):
     cases that load, all with a model-level flag down or a deviation flag,
     and a seeded sample of the rejected ones (capped per class model) are
     replayed on the implementation."""
-    cap = 6000 if V.tier == 'quick' else 120000
+    cap = 4000 if V.tier == 'quick' else 120000
     keep, rest = [], {}
     for c in cases:
         if (c['res'][0] == 'VAL' or any(c['dev'].values()) or
@@ -690,7 +689,7 @@ def run(pid, tier, replay=None, extra=None):
     # random behaviours well beyond the exhaustive bound (TLC simulation mode:
     # documents of up to 12 / 10 occurrences), same relations
     if pid in SIM_FOR:
-        num = 1500 if tier == 'quick' else 60000
+        num = 1500 if tier == 'quick' else 12000
         for cfg in SIM_FOR[pid]:
             stats, cases = tlc_cases(cfg, simulate='num=%d' % num)
             stats['what'] += ' (simulation, %d behaviours)' % len(cases)
